@@ -59,20 +59,6 @@ example : branchKey "release/ABA12.5U1".toList =
     [.str "release".toList, .str "ABA12".toList, .str "5U1".toList] := by decide
 example : ltKey (branchKey "origin/release/1.2".toList) (branchKey "origin/release/1.10".toList) = true := by decide
 
-theorem splitItems_word (w : List Char) (hw : ∀ c ∈ w, isSep c = false) (c : Char) (hc : isSep c = true)
-    (t cur : List Char) (hne : w ≠ [] ∨ cur ≠ []) :
-    splitItems (w ++ c :: t) cur = (cur.reverse ++ w) :: splitItems t [] := by
-  induction w generalizing cur with
-  | nil =>
-    have hcur : cur ≠ [] := by rcases hne with h | h; exact absurd rfl h; exact h
-    have : cur.isEmpty = false := by cases cur <;> simp_all
-    simp [splitItems, hc, this]
-  | cons x w ih =>
-    have hx : isSep x = false := hw x (by simp)
-    simp only [List.cons_append, splitItems, hx, Bool.false_eq_true, if_false]
-    rw [ih (fun c hc => hw c (by simp [hc])) (x :: cur) (Or.inr (by simp))]
-    simp
-
 /-- every release branch sorts below master: the first sort item of a release branch is the remote name, the
 first item of master is the sentinel `"zzzzzzzzzzzzzz"`.  Hypothesis (as in the design): the remote name is a
 single chunk that is a number or sorts below the sentinel (`origin` does). -/
@@ -106,9 +92,46 @@ theorem order_sorted {π} (h : Hist π) :
   ⟨sortBy_perm _ _,
    sortBy_sorted _ (fun a b => ltKey_asymm a.key b.key) (fun a b c => not_ltKey_trans a.key b.key c.key) _⟩
 
-/-! ## C06.no_nonmatching / at most once -/
+/-! ## the report and the branches
 
-/-- no commit that does not match is listed — under any build of any branch, the "not merged" entry included -/
+`rgraph h pl = .ok g` : the graph the report is printed from.  `g.all` holds the result of every release/master
+branch in the order they were read (`branchesOf h`, lower-sorted first); the report shows them reversed and without
+the branches that have no build.  `IsBranch h g j b B` : `B` is what the report shows for the `j`-th branch `b`;
+`lower h j` are the branches sorted below it. -/
+
+def lower {π} (h : Hist π) (j : Nat) : List Branch := (branchesOf h).take j
+
+def IsBranch {π β} (h : Hist π) (g : Graph β) (j : Nat) (b : Branch) (B : RepBranch) : Prop :=
+  (branchesOf h)[j]? = some b ∧ ∃ rb, g.all[j]? = some rb ∧ B = repBranch g.rcs rb
+
+/-- the report lists one entry per release/master branch that has something to show, master (the highest-sorted
+branch) first, under the branch's name -/
+theorem report_branches {π β} (h : Hist π) (hT : h.Topo) (pl : Plug π β) (rep : List RepBranch)
+    (hr : report h pl = .ok rep) :
+    ∃ g, rgraph h pl = .ok g ∧ g.all.length = (branchesOf h).length ∧
+      rep = ((g.all.map (repBranch g.rcs)).reverse.filter fun B => !B.builds.isEmpty) ∧
+      ∀ j b B, IsBranch h g j b B → B.name = b.name := by
+  obtain ⟨g, hg, hrep, hbr⟩ := report_branch hr
+  obtain ⟨hlen, hsem⟩ := rgraph_sem hT hg
+  refine ⟨g, hg, hlen, ?_, ?_⟩
+  · rw [hrep, hbr, ← List.map_reverse, List.filter_map]
+    congr 1
+    apply List.filter_congr
+    intro rb _
+    simp [repBranch, buildsList]
+    have hl := (sortBy_perm (fun a b : RB β => decide (b.iid < a.iid)) rb.rbuilds).length_eq
+    cases h1 : rb.rbuilds with
+    | nil => simp [sortBy]
+    | cons x xs =>
+      rw [h1] at hl
+      cases h2 : sortBy (fun a b : RB β => decide (b.iid < a.iid)) (x :: xs) with
+      | nil => rw [h2] at hl; simp at hl
+      | cons y ys => rfl
+  · rintro j b B ⟨hb, rb, hrb, rfl⟩
+    exact (hsem j b rb hb hrb).2
+
+/-- **C06.no_nonmatching** — no commit that does not match is listed, under any build of any branch, the "not
+merged" entry included -/
 theorem no_nonmatching {π β} (h : Hist π) (hT : h.Topo) (pl : Plug π β) (rep : List RepBranch)
     (hr : report h pl = .ok rep) :
     ∀ B ∈ rep, ∀ b ∈ B.builds, ∀ c ∈ b.commits, h.isMatch c = true := by
@@ -122,54 +145,140 @@ theorem no_nonmatching {π β} (h : Hist π) (hT : h.Topo) (pl : Plug π β) (re
   obtain ⟨i, _, rc, h1, h2, h3⟩ := (mem_repBuild_commits g.rcs b0 c).mp hc
   rw [← h3, ← hf.rcExp i rc h1, h2]
 
-/-- **partial** (C06.at_most_once): inside one reported branch no commit is repeated under a build, and no commit
-is listed under two different builds that have a build commit.
-Full statement (kept for the record): `∀ B ∈ rep, ∀ c, c is listed at most once in B`, the "not merged" entry
-included.  Missing: a commit under "not merged" is not also listed under a build — it follows from
-`not_merged_exact` (such a commit is not reachable from the head) and `only_matching` (commits under builds are). -/
-theorem at_most_once_partial {π β} (h : Hist π) (hT : h.Topo) (pl : Plug π β) (rep : List RepBranch)
-    (hr : report h pl = .ok rep) :
-    ∀ B ∈ rep,
-      (∀ b ∈ B.builds, b.commits.Nodup) ∧
-      (∀ (i j : Nat) (b1 b2 : RepBuild), i ≠ j → B.builds[i]? = some b1 → B.builds[j]? = some b2 →
-        b1.notMerged = false → b2.notMerged = false → ∀ c ∈ b1.commits, c ∉ b2.commits) := by
-  obtain ⟨g, hg, hrep, hbr⟩ := report_branch hr
+section
+variable {π β : Type} (h : Hist π) (hT : h.Topo) (pl : Plug π β) (g : Graph β) (hg : rgraph h pl = .ok g)
+variable (j : Nat) (b : Branch) (B : RepBranch) (hB : IsBranch h g j b B)
+include hT hg hB
+
+/-- **C06.only_matching** — every build of a branch in the report stands at a build of the branch in the sense of
+the property (a tagged commit or the head, reachable from the head, not part of a lower-sorted branch), and every
+commit listed under it matches and is contained in that build (so it is reachable from the head) -/
+theorem only_matching :
+    ∀ bd ∈ B.builds, bd.notMerged = false → ∃ e, bd.commit = some e ∧ SpecBuild h (lower h j) b e ∧
+      ∀ c ∈ bd.commits, h.isMatch c = true ∧ Anc h c e ∧ Anc h c b.head := by
+  obtain ⟨hb, rb, hrb, rfl⟩ := hB
+  have hs := ((rgraph_sem hT hg).2 j b rb hb hrb).1
   have hf := rgraph_facts hT hg
-  intro B hB
-  rw [hrep] at hB
-  obtain ⟨rb, hrb, rfl⟩ := List.mem_map.mp hB
-  have hrb' : rb ∈ g.all := by
-    rw [hbr] at hrb
-    exact List.mem_reverse.mp (List.mem_filter.mp hrb).1
-  have hfb := hf.facts rb hrb'
+  intro bd hbd hnm
+  obtain ⟨bd0, hbd0, rfl⟩ := (mem_repBranch_builds g.rcs rb bd).mp hbd
+  have hsome : bd0.rcommit.isSome = true := by
+    simp only [repBuild] at hnm; cases hx : bd0.rcommit <;> simp_all
+  obtain ⟨hrc0, rc, hrc, hspec, hl⟩ := hs.buildSpec bd0 hbd0 hsome
+  refine ⟨rc.commit, by simp [repBuild, hrc0, hrc], hspec, ?_⟩
+  intro c hc
+  have hlist := (listed_iff_mem g.rcs bd0 c).mp hc
+  obtain ⟨r, _, rcr, h1, h2, h3⟩ := hlist
+  have hanc := (hl c ⟨r, ‹_›, rcr, h1, h2, h3⟩).1
+  exact ⟨by rw [← h3, ← hf.rcExp r rcr h1, h2], hanc, hanc.trans hspec.2.1⟩
+
+/-- **C06.under_minimal_build** — a listed commit sits under an earliest build that contains it: no other build of
+the branch that contains the commit is an ancestor of the build it is listed under -/
+theorem under_minimal_build :
+    ∀ bd ∈ B.builds, bd.notMerged = false → ∀ e, bd.commit = some e → ∀ c ∈ bd.commits,
+      ∀ e', SpecBuild h (lower h j) b e' → Anc h c e' → Anc h e' e → e' = e := by
+  obtain ⟨hb, rb, hrb, rfl⟩ := hB
+  have hs := ((rgraph_sem hT hg).2 j b rb hb hrb).1
+  intro bd hbd hnm e he c hc e' hspec' hce' hee'
+  obtain ⟨bd0, hbd0, rfl⟩ := (mem_repBranch_builds g.rcs rb bd).mp hbd
+  have hsome : bd0.rcommit.isSome = true := by
+    simp only [repBuild] at hnm; cases hx : bd0.rcommit <;> simp_all
+  obtain ⟨hrc0, rc, hrc, _, hl⟩ := hs.buildSpec bd0 hbd0 hsome
+  have : e = rc.commit := by simpa [repBuild, hrc0, hrc] using he.symm
+  subst this
+  exact (hl c ((listed_iff_mem g.rcs bd0 c).mp hc)).2 e' hspec' hce' hee'
+
+/-- **C06.exactly_once** (existence; uniqueness is `at_most_once`) — a matching commit that is contained in some
+build of the branch is listed under a build of the branch -/
+theorem exactly_once :
+    ∀ e', SpecBuild h (lower h j) b e' → ∀ c, Anc h c e' → h.isMatch c = true →
+      ∃ bd ∈ B.builds, bd.notMerged = false ∧ c ∈ bd.commits := by
+  obtain ⟨hb, rb, hrb, rfl⟩ := hB
+  have hs := ((rgraph_sem hT hg).2 j b rb hb hrb).1
+  intro e' hspec' c hc hm
+  obtain ⟨bd0, hbd0, hsome, hl⟩ := hs.complete e' hspec' c hc hm
+  refine ⟨repBuild g.rcs bd0, (mem_repBranch_builds g.rcs rb _).mpr ⟨bd0, hbd0, rfl⟩, ?_,
+    (listed_iff_mem g.rcs bd0 c).mpr hl⟩
+  simp only [repBuild]; cases hx : bd0.rcommit <;> simp_all
+
+/-- **C06.not_merged_exact** — the "not merged" entry lists exactly the matching commits of lower-sorted branches
+that are not reachable from this head, and it is present whenever there is such a commit -/
+theorem not_merged_exact :
+    (∀ bd ∈ B.builds, bd.notMerged = true → ∀ c, c ∈ bd.commits ↔ SpecNotMerged h (lower h j) b c) ∧
+    (∀ c, SpecNotMerged h (lower h j) b c → ∃ bd ∈ B.builds, bd.notMerged = true) := by
+  obtain ⟨hb, rb, hrb, rfl⟩ := hB
+  have hs := ((rgraph_sem hT hg).2 j b rb hb hrb).1
   constructor
-  · intro b hb
-    simp only [repBranch] at hb
-    obtain ⟨b0, hb0, rfl⟩ := List.mem_map.mp hb
-    have hb0' := (mem_buildsList rb b0).mp hb0
-    exact explicitCommits_nodup g.rcs hf.rcInj _ (descending_nodup _ (hfb.nodup b0 hb0'))
-  · intro i j b1 b2 hij h1 h2 hn1 hn2 c hc1 hc2
+  · intro bd hbd hnm c
+    obtain ⟨bd0, hbd0, rfl⟩ := (mem_repBranch_builds g.rcs rb bd).mp hbd
+    have hnone : bd0.rcommit = none := by
+      simp only [repBuild] at hnm; cases hx : bd0.rcommit <;> simp_all
+    rw [listed_iff_mem]
+    exact hs.notMerged bd0 hbd0 hnone c
+  · intro c hc
+    obtain ⟨bd0, hbd0, hnone⟩ := hs.nmExists c hc
+    exact ⟨repBuild g.rcs bd0, (mem_repBranch_builds g.rcs rb _).mpr ⟨bd0, hbd0, rfl⟩, by simp [repBuild, hnone]⟩
+
+/-- **C06.at_most_once** — inside one branch of the report no commit is repeated under a build, and no commit is
+listed under two different entries (builds or "not merged"): every commit is listed at most once -/
+theorem at_most_once :
+    (∀ bd ∈ B.builds, bd.commits.Nodup) ∧
+    (∀ (i1 i2 : Nat) (b1 b2 : RepBuild), B.builds[i1]? = some b1 → B.builds[i2]? = some b2 →
+      ∀ c, c ∈ b1.commits → c ∈ b2.commits → i1 = i2) := by
+  have hom := only_matching h hT pl g hg j b B hB
+  have hnm := (not_merged_exact h hT pl g hg j b B hB).1
+  obtain ⟨hb, rb, hrb, rfl⟩ := hB
+  have hf := rgraph_facts hT hg
+  have hfb := hf.facts rb (List.mem_of_getElem? hrb)
+  constructor
+  · intro bd hbd
+    obtain ⟨bd0, hbd0, rfl⟩ := (mem_repBranch_builds g.rcs rb bd).mp hbd
+    exact explicitCommits_nodup g.rcs hf.rcInj _ (descending_nodup _ (hfb.nodup bd0 hbd0))
+  · intro i1 i2 b1 b2 h1 h2 c hc1 hc2
+    apply Classical.byContradiction
+    intro hij
+    have hm1 : b1 ∈ (repBranch g.rcs rb).builds := List.mem_of_getElem? h1
+    have hm2 : b2 ∈ (repBranch g.rcs rb).builds := List.mem_of_getElem? h2
     simp only [repBranch, List.getElem?_map] at h1 h2
-    cases ha : (buildsList rb)[i]? with
+    cases ha : (buildsList rb)[i1]? with
     | none => rw [ha] at h1; cases h1
-    | some a =>
-      cases hb : (buildsList rb)[j]? with
-      | none => rw [hb] at h2; cases h2
-      | some b =>
-        rw [ha] at h1; rw [hb] at h2
+    | some a1 =>
+      cases hb' : (buildsList rb)[i2]? with
+      | none => rw [hb'] at h2; cases h2
+      | some a2 =>
+        rw [ha] at h1; rw [hb'] at h2
         simp only [Option.map_some, Option.some.injEq] at h1 h2
         subst h1; subst h2
-        have hna : a.rcommit.isSome = true := by
-          simp only [repBuild] at hn1; cases hx : a.rcommit <;> simp_all
-        have hnb : b.rcommit.isSome = true := by
-          simp only [repBuild] at hn2; cases hx : b.rcommit <;> simp_all
-        have hne := buildsList_distinct hfb i j a b hij ha hb hna hnb
-        obtain ⟨r1, hr1, rc1, hg1, _, hc1'⟩ := (mem_repBuild_commits g.rcs a c).mp hc1
-        obtain ⟨r2, hr2, rc2, hg2, _, hc2'⟩ := (mem_repBuild_commits g.rcs b c).mp hc2
-        have : r1 = r2 := hf.rcInj r1 r2 rc1 rc2 hg1 hg2 (by rw [hc1', hc2'])
-        subst this
-        exact hfb.disj a b ((mem_buildsList rb a).mp (List.mem_of_getElem? ha))
-          ((mem_buildsList rb b).mp (List.mem_of_getElem? hb)) hna hnb hne r1 hr1 hr2
+        have hmem1 := (mem_buildsList rb a1).mp (List.mem_of_getElem? ha)
+        have hmem2 := (mem_buildsList rb a2).mp (List.mem_of_getElem? hb')
+        cases hn1 : a1.rcommit with
+        | none =>
+          have hN1 : (repBuild g.rcs a1).notMerged = true := by simp [repBuild, hn1]
+          have hs1 := (hnm _ hm1 hN1 c).mp hc1
+          cases hn2 : a2.rcommit with
+          | none => exact buildsList_one_pseudo hfb i1 i2 a1 a2 hij ha hb' hn1 hn2
+          | some x =>
+            have hN2 : (repBuild g.rcs a2).notMerged = false := by simp [repBuild, hn2]
+            obtain ⟨e, _, _, hall⟩ := hom _ hm2 hN2
+            exact hs1.2.2 (hall c hc2).2.2
+        | some x =>
+          have hN1 : (repBuild g.rcs a1).notMerged = false := by simp [repBuild, hn1]
+          cases hn2 : a2.rcommit with
+          | none =>
+            have hN2 : (repBuild g.rcs a2).notMerged = true := by simp [repBuild, hn2]
+            have hs2 := (hnm _ hm2 hN2 c).mp hc2
+            obtain ⟨e, _, _, hall⟩ := hom _ hm1 hN1
+            exact hs2.2.2 (hall c hc1).2.2
+          | some y =>
+            have hna : a1.rcommit.isSome = true := by rw [hn1]; rfl
+            have hnb : a2.rcommit.isSome = true := by rw [hn2]; rfl
+            have hne := buildsList_distinct hfb i1 i2 a1 a2 hij ha hb' hna hnb
+            obtain ⟨r1, hr1, rc1, hg1, _, hc1'⟩ := (mem_repBuild_commits g.rcs a1 c).mp hc1
+            obtain ⟨r2, hr2, rc2, hg2, _, hc2'⟩ := (mem_repBuild_commits g.rcs a2 c).mp hc2
+            have : r1 = r2 := hf.rcInj r1 r2 rc1 rc2 hg1 hg2 (by rw [hc1', hc2'])
+            subst this
+            exact hfb.disj a1 a2 hmem1 hmem2 hna hnb hne r1 hr1 hr2
+
+end
 
 /-! ## Non-vacuity: a concrete history (merge, two branches, head of the second inside the first) evaluated by the
 kernel — the hypotheses `Hist.Topo` and `report … = .ok …` are satisfiable and the report is not empty. -/
